@@ -873,7 +873,9 @@ class TunnelCommunity(Community):
 
             self.logger.info("Got CREATED message forward as EXTENDED to origin.")
 
-            if request.from_circuit_id not in self.exit_sockets:
+            if request.from_circuit_id not in self.exit_sockets or request.from_circuit_id in self.relay_from_to:
+                # The exit socket lingers for remove_tunnel_delay after we turned it into a relay: a created from an
+                # abandoned or duplicated extend must not re-point the route the circuit owner has already accepted.
                 self.logger.info("Created for unknown exit socket %s", request.from_circuit_id)
                 return
             session_keys = self.exit_sockets[request.from_circuit_id].hop.keys
